@@ -59,6 +59,10 @@ pub trait Elem: Field {
     fn p_into_bigint(&self) -> Option<BigUint> {
         None
     }
+    /// FromStr (two entry points: the trait method and str::parse); None for extension fields
+    fn p_from_str(_s: &str, _parse: bool) -> Option<Result<Self, ()>> {
+        None
+    }
 }
 
 pub fn mont_r<const N: usize>(p: &BigUint) -> BigUint {
@@ -112,6 +116,9 @@ impl<T: MontConfig<N>, const N: usize> Elem for Fp<MontBackend<T, N>, N> {
         let mut a = [0u64; N];
         a.copy_from_slice(&limbs);
         Some(<Self as PrimeField>::from_bigint(BigInt(a)))
+    }
+    fn p_from_str(s: &str, parse: bool) -> Option<Result<Self, ()>> {
+        Some(if parse { s.parse::<Self>() } else { <Self as std::str::FromStr>::from_str(s) })
     }
     fn p_into_bigint(&self) -> Option<BigUint> {
         Some(limbs_to_biguint(&self.into_bigint().0))
